@@ -12,7 +12,9 @@ LEVEL = 'proof'
 RULE = ('forward: for all 256 exponent pairs (K1, K2 in -8..7) x the formats unsigned / 1s / 2s (+ code 3) x all 256 '
         'raw bytes with M, B cycling through a boundary set (-512, -511, -256, -129, -128, -2, -1, 1, 2, 3, 127, 128, '
         '255, 256, 511; B also 0), seeded random records x all raws, all 256 linearisation codes, all twelve '
-        'linearisations on seeded records, None; inverse: the real forward value of every such linear M != 0 case is '
+        'linearisations on seeded records, every non-linear linearisation x every analog format x all 256 raws with '
+        'M = +1 and -1 (arguments of both signs: the cube root of negative arguments for every format, directed '
+        'witnesses first), None; inverse: the real forward value of every such linear M != 0 case is '
         'converted back, plus seeded free values (negative, fractional, out of range, M = 0, non-linear).  The real '
         'code is compared with the Lean model (tie) and with Spec.Sensor / the round-trip law (property).  A case is '
         'distinct by (direction, fmt, lin, M, B, K1, K2, raw or value) and non-trivial when M*x or B is non-zero.  '
@@ -24,9 +26,15 @@ ASSUMPTIONS = [
     'zero tolerance when both terms vanish)',
     'round() is modelled as round-half-even on the exact value; when the exact pre-rounding value is within 2^-30 of a '
     'half-integer and code and model differ the case is counted as rounding-ambiguous, not compared',
-    'the transcendental functions (math.log, exp, pow, sqrt) are parameters of the theorems; the run checks which '
-    'function is applied: the real result must equal the harness\'s own math function of that tag applied to the '
-    'real (validated) argument within relative 2^-40, or raise the same exception class',
+    'the transcendental functions (math.log, exp, pow, sqrt, cube root) are parameters of the theorems; the run checks '
+    'which function is applied: the real result must equal the harness\'s own math function of that table code applied '
+    'to the real (validated) argument within relative 2^-40, or raise the same exception class.  The oracle of code 0Bh '
+    'is the REAL cube root (math.cbrt: defined for negative arguments, odd) - what the theorems assume of F.cubert '
+    '(Spec.Sensor.Fns.RealCubeRoot: defined everywhere, odd) and nothing else; ln / log / sqrt raise where the '
+    'mathematical function has no real value, e^x / 10^x / 2^x where the double overflows (judged: same exception class)',
+    'the model side of the tie applies the host function named by the function TAG the translator derived from the '
+    'shape of each lambda (tag 11 math.pow(x, 1.0/3) vs tag 12 math.copysign(math.pow(abs(x), 1.0/3), x)): the '
+    'generated table says which cube root the working tree contains, the run also probes it (cube_root_probed)',
     'GENERATED every run from the AST of the working tree (harness/translate/sdrexpr.py -> Gen/SensorExpr.lean, one '
     'Lean definition per source statement, fail closed outside its grammar): the two sign conversions and the argument '
     '(self.m * raw + (self.b * 10**self.k1)) * 10**self.k2 of convert_sensor_raw_to_value; the linearisation mask, the '
@@ -43,10 +51,12 @@ ASSUMPTIONS = [
     'hand-written (lean/PyIpmi/Model/Sensor.lean) and tied by this correspondence run only: the control skeleton '
     '(order of guards, ZeroDivisionError for M = 0, None -> None), round(), the call of self.lin; the linearisation '
     'dispatch table is regenerated (Gen/SdrTables.lean)',
-    'the two deviations of the ORIGINAL pinned source (repaired in /repo since) stay in the model as Variant flags: '
-    'inverse_*_counterexample theorems about the frozen asShipped variant are documentation; the generated expressions '
-    'are equated with Variant.intended; the run still probes the real code, so a returning defect is reported with a '
-    'concrete input while the gen_* theorems stop building',
+    'the deviations of the ORIGINAL pinned source stay in the model as Variant flags (inverse formula, negative '
+    'encoding, cube root as math.pow(x, 1.0/3)): inverse_*_counterexample, cubert_negative_counterexample and '
+    'shipped_cubert_rejects_negatives are theorems about the frozen asShipped variant; the generated expressions / the '
+    'generated lin table are equated with Variant.intended (gen_*_eq, gen_lin_table_intended, lin_table); the run '
+    'still probes the real code, so a returning defect is reported with a concrete input while those theorems stop '
+    'building',
 ]
 TRUSTED = ['harness/translate/sdr.py', 'harness/translate/sdrexpr.py', 'harness/props/c17.py']
 
@@ -55,7 +65,22 @@ BOUNDARY_M = [-512, -511, -256, -129, -128, -2, -1, 1, 2, 3, 127, 128, 255, 256,
 BOUNDARY_B = BOUNDARY_M + [0]
 FMT_NAME = {0: 'unsigned', 1: 'ones', 2: 'twos', 3: 'none'}
 
-# The harness's own reading of table 43-1 byte 24 (function per tag), independent of sdr.py.
+def real_cbrt(x):
+    """The REAL cube root (table 43-1 byte 24 code 0Bh, `cube-1(x)`): defined for every real argument,
+    odd.  Written without sdr.py and without `pow(x, 1/3)` on a negative base: the interpreter's
+    math.cbrt where it exists (Python >= 3.11), else sign(x) * |x|^(1/3) refined by one Newton step."""
+    if hasattr(math, 'cbrt'):
+        return math.cbrt(x)
+    if x == 0 or x != x or x in (float('inf'), float('-inf')):
+        return x
+    a = abs(x)
+    y = math.exp(math.log(a) / 3.0)
+    y -= (y * y * y - a) / (3.0 * y * y)
+    return -y if x < 0 else y
+
+
+# The harness's own reading of table 43-1 byte 24 (the mathematical function per table CODE),
+# independent of sdr.py: the property oracle.
 ORACLE_FN = {
     0: lambda x: x,
     1: lambda x: math.log(x),
@@ -68,8 +93,14 @@ ORACLE_FN = {
     8: lambda x: math.pow(x, 2),
     9: lambda x: math.pow(x, 3),
     10: lambda x: math.sqrt(x),
-    11: lambda x: math.pow(x, 1.0 / 3),
+    11: real_cbrt,
 }
+# The host function each function TAG of the model stands for (tag = shape of the lambda in the source,
+# harness/translate/sdr.py): used for the tie only.  Tags 0..10 are the table codes; the cube root has two
+# shapes: 11 `math.pow(x, 1.0/3)` (ValueError below 0), 12 `math.copysign(math.pow(abs(x), 1.0/3), x)`.
+SHAPE_FN = dict(ORACLE_FN)
+SHAPE_FN[11] = lambda x: math.pow(x, 1.0 / 3)
+SHAPE_FN[12] = lambda x: math.copysign(math.pow(abs(x), 1.0 / 3), x)
 EXACT_TAGS = (0, 7, 8, 9)
 
 _tab = None
@@ -119,6 +150,16 @@ def probe():
     b = _call(_mkrec(2, 0, 1, -10, 0, 0).convert_sensor_value_to_raw, -5.0)
     sign = 0 if b == ('ok', 5) else 1 if b == ('ok', -123) else None
     return formula, sign, a, b
+
+
+def probe_cubert():
+    """Which cube root does the working tree contain?  Witness of cubert_negative_counterexample:
+    2's complement, linearisation 0Bh, M = 1, B = 0, reading F8h (-8).  0 = intended (-2), 1 = as shipped
+    (ValueError), None = neither."""
+    c = _call(_mkrec(2, 11, 1, 0, 0, 0).convert_sensor_raw_to_value, 0xF8)
+    if c[0] == 'ok' and isinstance(c[1], float) and _rel_close(c[1], -2.0):
+        return 0, c
+    return (1 if c == ('err', 'ValueError') else None), c
 
 
 # ---------------------------------------------------------------------------------------------
@@ -286,7 +327,13 @@ class _Run(object):
                     continue
                 values.append(None)
                 for tag, who in ((mt, 'model'), (st, 'spec')):
-                    want = _call(ORACLE_FN[tag], pyarg) if tag in ORACLE_FN else ('err', 'TieBroken')
+                    fns = SHAPE_FN if who == 'model' else ORACLE_FN
+                    want = _call(fns[tag], pyarg) if tag in fns else ('err', 'TieBroken')
+                    if who == 'model' and mres.startswith('py:') and tag not in EXACT_TAGS:
+                        # the Lean model itself decides the domain of this tag (tag 11: ValueError below 0)
+                        if want != ('err', mres[3:]):
+                            ctx.disagree('forward-lin-domain', case, 'tag %d -> %s' % (tag, mres), str(want))
+                        want = ('err', mres[3:])
                     if tag in EXACT_TAGS:
                         # exact tags: the Lean function evaluated at the real argument
                         lres = self.drv.ask('lin %d %s' % (tag, _frac_tok(pyarg)))
@@ -306,8 +353,13 @@ class _Run(object):
                     if who == 'model':
                         ctx.disagree('forward-lin', case, 'tag %d -> %s' % (tag, want), str(real))
                     else:
-                        self.violate('C17:forward:lin=%d' % (lin & 0x7f),
-                                     'linearisation %d must be %s of the argument %r' % (lin & 0x7f, sdr_t.FN_NAMES[tag], pyarg),
+                        # L has a value at this negative argument and the code raises: the domain of L is cut
+                        has_value = (not want.startswith('py:')) if tag in EXACT_TAGS else want[0] == 'ok'
+                        cut = pyarg < 0 and real[0] == 'err' and has_value
+                        self.violate('C17:forward:lin=%d%s' % (lin & 0x7f, ':negative-argument' if cut else ''),
+                                     'linearisation %d must be %s of the argument %r%s'
+                                     % (lin & 0x7f, sdr_t.FN_NAMES[tag], pyarg,
+                                        ' (L is defined for negative arguments; the code raises %s)' % real[1] if cut else ''),
                                      case, str(want), str(real))
             if inverse and (lin & 0x7f) == 0 and m != 0:
                 inv_jobs.append((rec, xs, values))
@@ -410,6 +462,13 @@ def _witnesses(run):
     run.forward_batch([(2, 0, 1, -10, 0, 0)], raws=[5], label='witness')
     run.forward_batch([(1, 0, -1, 0, 0, 0)], raws=[5], label='witness')
     run.forward_batch([(2, 0, 1, 0, 0, 0), (1, 0, 1, 0, 0, 0)], raws=[0, 1, 127, 128, 129, 254, 255], label='witness')
+    # the cube root of a negative argument, once per analog format (2's / 1's complement reading -8,
+    # unsigned with negative M, unsigned with negative B, result exponent 3)
+    run.forward_batch([(2, 11, 1, 0, 0, 0)], raws=[0xF8], inverse=False, label='witness')
+    run.forward_batch([(1, 11, 1, 0, 0, 0)], raws=[0xF7], inverse=False, label='witness')
+    run.forward_batch([(0, 11, -1, 0, 0, 0)], raws=[27], inverse=False, label='witness')
+    run.forward_batch([(0, 11, 1, -64, 0, 0)], raws=[0], inverse=False, label='witness')
+    run.forward_batch([(2, 11, 1, 0, 0, 3)], raws=[0xFF], inverse=False, label='witness')
 
 
 def run(ctx):
@@ -419,6 +478,14 @@ def run(ctx):
     ctx.extra['inverse_variant_probed'] = {
         'formula': {0: 'intended', 1: 'asShipped', None: 'neither (%s)' % (pa,)}[formula],
         'sign_rule': {0: 'intended', 1: 'asShipped', None: 'neither (%s)' % (pb,)}[sign]}
+    cub, pc = probe_cubert()
+    ctx.extra['cube_root_probed'] = {0: 'intended (real cube root)', 1: 'asShipped (math.pow(x, 1.0/3): ValueError below 0)',
+                                     None: 'neither (%s)' % (pc,)}[cub]
+    gen_tag = dict(_tab['lin']).get(11) if _tab else None
+    ctx.extra['cube_root_generated_tag'] = gen_tag
+    if cub is not None and gen_tag in (11, 12) and (gen_tag == 11) != (cub == 1):
+        ctx.disagree('cube-root-shape', {'op': 'forward', 'fmt': 2, 'lin': 11, 'm': 1, 'b': 0, 'k1': 0, 'k2': 0, 'raw': 0xF8},
+                     'function tag %d' % gen_tag, str(pc))
     run_ = _Run(ctx, drv, (formula, sign))
     rng = ctx.rng('c17')
 
@@ -474,6 +541,21 @@ def run(ctx):
                          rng.randrange(-8, 8) if wide else rng.randrange(-3, 1)))
     for j in range(0, len(recs), 32):
         run_.forward_batch(recs[j:j + 32], inverse=False, label='nonlinear')
+
+    # every linearisation on arguments of both signs: all 256 raws x every analog format, M = +-1 (so the
+    # argument runs through -255..255 / -128..127 / -127..127), and one seeded record with negative M or B
+    # per format; the cube root (0Bh) has a value on all of them, ln / log / sqrt only on the positive ones,
+    # 1/x everywhere but 0
+    recs = []
+    for fmt in (0, 1, 2, 3):
+        for tag in (11, 11 | 0x80, 1, 2, 3, 7, 8, 9, 10):
+            recs.append((fmt, tag, 1, 0, 0, 0))
+            recs.append((fmt, tag, -1, 0, 0, 0))
+        recs.append((fmt, 11, rng.choice((-512, -129, -3, 511)), rng.choice((-512, -100, -1, 100)), rng.randrange(-2, 3),
+                     rng.randrange(-3, 3)))
+        recs.append((fmt, 11, rng.randrange(1, 512), -rng.randrange(1, 512), rng.randrange(0, 3), rng.randrange(-8, 4)))
+    for j in range(0, len(recs), 20):
+        run_.forward_batch(recs[j:j + 20], inverse=False, label='both-signs')
 
     # inverse on free values
     items = []
